@@ -369,6 +369,12 @@ def obligations():
         obs.append(Ob('O18.1-struct-%s-3' % t, 'derive(%s) on a struct with three fields of any types' % target, ob_derive, ('thorough',), 40, dict(kind='struct', target=target, nfields=3, name_sets=HELPER_NAMES[:2])))
         obs.append(Ob('O18.2-enum-%s' % t, 'derive(%s) on enums with one to three variants and payloads of 0..2 components' % target, ob_derive, ('quick', 'thorough'), 10,
                       dict(kind='enum', target=target, nfields=0, name_sets=[('A', 'B', 'C'), ('__field0', 'self', 'E')], variants=[(0,), (1,), (2,), (0, 1), (1, 0), (2, 1), (0, 0, 1), (1, 2, 0)])))
+        # wide definitions (one scalar type, no forking): 6 / 11 / 17 / 33 members, i.e. 19 .. 100 text pieces in one generated expression
+        for n in (6, 11, 17, 33):
+            obs.append(Ob('O18.1-struct-%s-wide-%d' % (t, n), 'derive(%s) on a struct with %d int32 fields' % (target, n), ob_derive, ('quick', 'thorough') if n in (6, 17) else ('thorough',), 3,
+                          dict(kind='struct', target=target, nfields=n, name_sets=[tuple('f%d' % i for i in range(n))], ty_allowed=['TInt32'])))
+        obs.append(Ob('O18.2-enum-%s-wide' % t, 'derive(%s) on enums with a variant of 8 / 9 / 17 / 33 int32 payload components' % target, ob_derive, ('quick', 'thorough'), 5,
+                      dict(kind='enum', target=target, nfields=0, name_sets=[('A', 'B', 'C')], variants=[(8,), (0, 9), (17, 1), (33,)], ty_allowed=['TInt32'])))
     return obs
 
 META = {
